@@ -238,8 +238,8 @@ var litPool = func() map[string][]literal {
 		"complex": {"(1.0+2.0i)", "(-1.5-0.5i)", "(0.0+0.0i)", "(1.0E+2-3.0e-1i)", "(+2.0+1.0i)", "(0.5-1.0E+10i)",
 			// same phase, magnitudes whose squares overflow or underflow
 			"(1.0E+200+0.0i)", "(2.0E+200+0.0i)", "(1.0E-200+0.0i)", "(2.0E-200+0.0i)", "(1.0E+200+1.0E+200i)", "(2.0E+200+2.0E+200i)"},
-		"nil":     {"nil"},
-		"rune":    {`'a'`, `'Z'`, `'0'`, `' '`, `'"'`, `'\''`, `'\\'`, `'\n'`, `'\t'`, `'\a'`, `'\x41'`, `'\x7f'`, `'\x80'`, `'\xe9'`, `'\xff'`, `'\u00e9'`, `'\U0001f600'`, `'é'`, `'😀'`, `'\v'`, `'['`, `','`},
+		"nil":  {"nil"},
+		"rune": {`'a'`, `'Z'`, `'0'`, `' '`, `'"'`, `'\''`, `'\\'`, `'\n'`, `'\t'`, `'\a'`, `'\x41'`, `'\x7f'`, `'\x80'`, `'\xe9'`, `'\xff'`, `'\u00e9'`, `'\U0001f600'`, `'é'`, `'😀'`, `'\v'`, `'['`, `','`},
 		"string": {`""`, `"a"`, `"hello world"`, `"with \"quotes\""`, `"tab\there"`, `"\x41é\U0001f600"`, `"ünïcödé"`, `"😀"`, `"back\\slash"`, `"[](List)"`,
 			`"1, 2"`, `"a: b"`, `"nil"`, `"true"`, `"'"`, `"\a\b\f\n\r\t\v"`, `"The quick brown fox jumps over the lazy dog and keeps running for a rather long while."`},
 	}
